@@ -594,6 +594,14 @@ func (e *clEngine) oracleSwapEndpointsAt(line, class string, ogi, zfo bool, amt,
 	if !ogi && got.Cmp(amt) < 0 && !partial {
 		o.Count("swap.exact-out-one-unit-short")
 	}
+	// the specified amount is a LIMIT on its own side: an exact-in swap never debits more than the amount given, an exact-out
+	// swap never delivers more than the amount asked for
+	if ogi && paid.Cmp(amt) > 0 {
+		o.Fail("swap:exact-in-charged-more-than-specified:"+kind+":"+spfClass, fmt.Sprintf("%s paid %s got %s | %s", line, paid, got, e.replay()))
+	}
+	if !ogi && got.Cmp(amt) > 0 {
+		o.Fail("swap:exact-out-delivered-more-than-specified:"+kind+":"+spfClass, fmt.Sprintf("%s paid %s got %s | %s", line, paid, got, e.replay()))
+	}
 	atLimit := sp1.Cmp(cltypes.MinSqrtPriceBigDec.BigInt()) == 0 || sp1.Cmp(cltypes.MaxSqrtPriceBigDec.BigInt()) == 0
 	fill := "full"
 	pre := "swap."
